@@ -91,6 +91,72 @@ func (e *Engine) callExternal(fn *types.Func, recv Value, args []Value, cx *ast.
 	case "sync.WaitGroup.Add", "sync.WaitGroup.Done", "sync.WaitGroup.Wait":
 		e.notes["assumed external: sync.WaitGroup used only to join; Wait returns after every Done"] = true
 		return VTuple{}
+	case "cmp.Compare":
+		// assumed external: cmp.Compare(x, y) is -1, 0, +1 for x < y, x == y, x > y (NaN excluded: real arithmetic)
+		x, y := term(args[0]), term(args[1])
+		return VTerm{T: mkIte(mkCmp("<", x, y), mkInt(-1), mkIte(mkCmp(">", x, y), mkInt(1), mkInt(0))), Typ: types.Typ[types.Int]}
+	case "slices.SortFunc":
+		// assumed external: sorts in place into a permutation ordered by cmp (requires cmp to be a consistent ordering).
+		// The comparator literal is executed symbolically on two arbitrary elements; its `lit#i ensures` clauses
+		// (e.g. "negative iff a ranks before b") are obligations of the caller.
+		sl, ok := args[0].(VSlice)
+		cl, ok2 := args[1].(VClosure)
+		if !ok || !ok2 {
+			unsup("slices.SortFunc with non-literal comparator at %s", e.src(cx))
+		}
+		e.notes["assumed external: slices.SortFunc yields a permutation sorted by the comparator (whose order properties are proved as lit ensures obligations)"] = true
+		a := e.wrap(e.fresh("cmp_a", e.elemSort(sl.Elem)), sl.Elem)
+		b := e.wrap(e.fresh("cmp_b", e.elemSort(sl.Elem)), sl.Elem)
+		tmp := st.clone()
+		ret := e.inlineLit(cl.Lit, []Value{a, b}, tmp)
+		ord := e.litOrdinal(cl.Lit)
+		pnames := []string{}
+		for _, f := range cl.Lit.Type.Params.List {
+			for _, n := range f.Names {
+				pnames = append(pnames, n.Name)
+			}
+		}
+		var exported []*Clause
+		for j, c := range e.litClauses(cl.Lit, "ensures") {
+			env := e.specEnvAt(tmp, cl.Lit.Body.Lbrace+1)
+			n := map[string]Value{}
+			for k, v := range env.names {
+				n[k] = v
+			}
+			n["ret"] = ret
+			if len(pnames) == 2 {
+				n[pnames[0]], n[pnames[1]] = a, b
+			}
+			env.names = n
+			e.assert(tmp, term(e.evalSpec(c.Expr, env)), fmt.Sprintf("lit#%d/ensures#%d", ord, j), c.Where, c.Tags)
+			exported = append(exported, c)
+		}
+		// result: same length, every element comes from the input, adjacent elements ordered by the `lit#i sorted` relation
+		narr := e.fresh("sorted.arr", sl.Arr.Sort)
+		ns := VSlice{Arr: narr, Len: sl.Len, Elem: sl.Elem}
+		e.nfresh += 2
+		i := mkVar(fmt.Sprintf("i$%d", e.nfresh), SInt)
+		j := mkVar(fmt.Sprintf("j$%d", e.nfresh-1), SInt)
+		rng := func(x *Term) *Term { return mkAnd(mkCmp("<=", mkInt(0), x), mkCmp("<", x, sl.Len)) }
+		perm := mkApp("sortperm", SInt, narr, i)
+		inv := mkApp("sortinv", SInt, narr, i)
+		st.assume(mkForall([]*Term{i}, mkImplies(rng(i), mkAnd(rng(perm), mkEq(mkSelect(narr, i), mkSelect(sl.Arr, perm)))), [][]*Term{{mkSelect(narr, i)}}))
+		st.assume(mkForall([]*Term{i}, mkImplies(rng(i), mkAnd(rng(inv), mkEq(mkSelect(narr, inv), mkSelect(sl.Arr, i)))), [][]*Term{{mkSelect(sl.Arr, i)}}))
+		for _, c := range e.litClauses(cl.Lit, "sorted") {
+			env := e.specEnvAt(st, cl.Lit.Body.Lbrace+1)
+			n := map[string]Value{}
+			for k, v := range env.names {
+				n[k] = v
+			}
+			if len(pnames) == 2 {
+				n[pnames[0]] = e.wrap(mkSelect(narr, i), sl.Elem)
+				n[pnames[1]] = e.wrap(mkSelect(narr, j), sl.Elem)
+			}
+			env.names = n
+			st.assume(mkForall([]*Term{i, j}, mkImplies(mkAnd(rng(i), rng(j), mkCmp("<", i, j)), term(e.evalSpec(c.Expr, env))), [][]*Term{{mkSelect(narr, i), mkSelect(narr, j)}}))
+		}
+		e.assignTo(cx.Args[0], ns, st)
+		return VTuple{}
 	case "slices.Max", "slices.Min":
 		sl, ok := args[0].(VSlice)
 		if !ok || sl.Len.Op != "int" || !sl.Len.Int.IsInt64() || sl.Len.Int.Int64() < 1 || sl.Len.Int.Int64() > 16 {
